@@ -381,7 +381,14 @@ class Compiler:
             return False, None
 
         for ctx_start, ctx_end, file_format, filepath, *arguments in self.emitted_files:
-            result = file_formats[file_format](base, code, *arguments)
+            try:
+                result = file_formats[file_format](base, code, *arguments)
+            except struct.error:
+                reports.error(
+                    "value-out-of-bounds",
+                    (ctx_start, ctx_end, f"The program ({len(code)} bytes linked at {base}) does not fit in format '{file_format}',\nwhich stores the address and the size as 16-bit words")
+                )
+                continue
             try:
                 with open_device(filepath, "wb") as f:
                     f.write(result)
